@@ -219,8 +219,13 @@ func genProfileRows(emit func(string), tier string, rng *Rng) {
 		}
 	}
 	nr := 200
-	if tier == "thorough" {
-		nr = 5000
+	if tier == "thorough" { // every message number
+		for m := 0; m < 65536; m++ {
+			if !known[m] {
+				extra[m] = true
+			}
+		}
+		nr = 0
 	}
 	for i := 0; i < nr; i++ {
 		if m := rng.Intn(65536); !known[m] {
